@@ -24,6 +24,7 @@ EXC_PARENTS = {
     "JSONRPC2Error": "Exception", "JSONRPC2ProtocolError": "Exception", "URLError": "OSError",
     # pseudo classes used by the model
     "Exception?": "Exception",  # some exception class, unknown which (forks on specific handlers)
+    "NonRPCException": "Exception",  # any exception class other than the repository's JSONRPC2Error
     "LookupOrTypeError": "Exception?",
 }
 
